@@ -29,6 +29,28 @@ def make_scenarios(rng, tier):
         for _ in range(1 if tier == "quick" else 4):
             scs.append(storm_scenario(sid, mn, mx, rng, n=600 if tier == "quick" else 900))
             sid += 1
+    # requests that PANIC inside the pooled call (a nil stop tag handed to the stop-tag wrappers: the engine dereferences it after the
+    # first rule): the panic reaches the caller, the instance goes back to the pool all the same
+    for (mn, mx) in [(1, 2), (2, 3)]:
+        sc = {"id": sid, "min": mn, "max": mx, "model": 1, "rules": rules_v(1), "steps": []}
+        names = ["pa", "pb", "pc"]
+        rid = sid * 1000
+        for meth in ("ExecuteMixModelWithStopTagDirect", "ExecuteWithStopTagDirect", "ExecuteSelectedRulesWithControlAndStopTag", "ExecuteSelectedRulesWithControlAndStopTagAsGivenSortedName") * 2:
+            rid += 1
+            sc["steps"].append(req_step(rid, meth, names, hold_at="", nil_tag=True))
+            sc["steps"].append({"op": "wait", "id": rid})
+        sc["steps"].append({"op": "snapshot", "probe": names, "_active": [], "_done": []})
+        held = []
+        for _ in range(mx):
+            rid += 1
+            held.append(rid)
+            sc["steps"].append(req_step(rid, "Execute", names, hold_at="*"))
+        sc["steps"].append({"op": "snapshot", "probe": names, "_active": list(held), "_done": []})
+        for q in held:
+            sc["steps"].append({"op": "release", "id": q})
+        sc["steps"].append({"op": "snapshot", "probe": names, "_active": [], "_done": list(held)})
+        scs.append(sc)
+        sid += 1
     # simultaneous hand-backs: every request of a round finishes at the same instant, thousands of rounds
     for (mn, mx) in [(2, 8), (1, 4), (3, 5)]:
         scs.append(burst_scenario(sid, mn, mx, 1500 if tier == "quick" else 12000))
@@ -38,7 +60,7 @@ def make_scenarios(rng, tier):
 
 RULE = ("scenario = pool (min,max) in {(1,2),(2,3),(3,8)} (thorough adds (1,5),(4,6)); per round: max requests, through wrapper methods drawn from all 24, each held at a gate inside its first rule; 0-2 further requests that must wait; "
         "a snapshot (free lists, per-instance data-context keys, by reflection) while max requests are inside rules; release in random order; snapshot at quiescence; second round proves the pool still serves max simultaneous requests; "
-        "half of the scenarios use rule sets whose rules fail or panic; plus storms of 600 (thorough 900) short unheld requests (one per pool size, two on (3,8), one each on (1,8) and (1,6) pools whose instances are nearly all additional ones; thorough four of each) each followed by max simultaneous held ones; plus bursts (1,500 rounds, thorough 12,000, on three pool sizes: max requests held inside a rule until all are there, then released at the same instant, so that instances are handed back simultaneously; nothing recorded, conservation checked afterwards); plus waiter scenarios (max held requests, one more that must wait, ONE instance handed back — an additional one or an initial one — after which the waiter must run to completion while the others stay held); plus random walks over pool states (start a held request / release a random held one / run a request to completion, a snapshot after every action, then max simultaneous requests again) so that instances are handed back before and while others are taken; checked inside Coq: conservation (free ++ additional ++ in use = 0..max-1), no shared instance, at most max simultaneous executions (from the global event order), waiters finish; "
+        "half of the scenarios use rule sets whose rules fail or panic; plus storms of 600 (thorough 900) short unheld requests (one per pool size, two on (3,8), one each on (1,8) and (1,6) pools whose instances are nearly all additional ones; thorough four of each) each followed by max simultaneous held ones; plus bursts (1,500 rounds, thorough 12,000, on three pool sizes: max requests held inside a rule until all are there, then released at the same instant, so that instances are handed back simultaneously; nothing recorded, conservation checked afterwards); plus requests that panic inside the pooled call (a nil stop tag) followed by max held ones; plus waiter scenarios (max held requests, one more that must wait, ONE instance handed back — an additional one or an initial one — after which the waiter must run to completion while the others stay held); plus random walks over pool states (start a held request / release a random held one / run a request to completion, a snapshot after every action, then max simultaneous requests again) so that instances are handed back before and while others are taken; checked inside Coq: conservation (free ++ additional ++ in use = 0..max-1), no shared instance, at most max simultaneous executions (from the global event order), waiters finish; "
         "distinct non-trivial = snapshots taken while at least two requests were simultaneously inside a rule")
 
 
